@@ -25,6 +25,7 @@ FUNCTIONS = ["ioflo.base.framing.Framer.ExEn", "Framer.enter/exit/rexit/renter/e
              "ioflo.base.acting.Suspender.action/deactivize", "ioflo.base.needing.Need (symbolic comparisons)",
              "ioflo.base.building.Builder.build (concrete text)"]
 ASSUMPTIONS = [
+    "programs that attach one original auxiliary to two frames of one chain (or twice to one frame) are assumed away: that is C08's known finding",
     "program family: one framer of N frames in an arbitrary forest, arbitrary first frame, 1-2 transitions (source in the start outline for the first), "
     "entry guards on every frame, optional plain and/or conditional auxiliary (2 frames each, done on the 2nd frame; aux1 variant: one frame with done = completes in its first iteration)",
     "share values are integers in [0,1]; prelude ticks (start; optionally activating the conditional auxiliary) use concrete values, the following ticks are fully symbolic",
@@ -38,6 +39,20 @@ KINDS = ("transit", "exit", "rexit", "renter", "enter")
 def h(sym, n, ngo, auxes, symticks, end, parent, suspended, aux_frames=2):
     prog, info = flostep.family(sym, n, ngo=ngo, auxes=auxes, parent=parent, near_in_cur=True, host_in_cur=True,
                                 aux_frames=aux_frames)
+    # one original auxiliary attached to two frames of one chain (or twice to one frame) is entered under both when
+    # that outline is entered in one go: C08's known finding, not this property's subject -- assumed away here
+    hosts = {}
+    for (name, kind, host) in info["aux"]:
+        hosts.setdefault(host, []).append(name)
+    owners = {}
+    for f, names in hosts.items():
+        for a in names:
+            owners.setdefault(a, []).append(f)
+    for a, fs_ in owners.items():
+        if len(fs_) > 1:
+            for i in range(n):
+                ch = flostep.chain(info["parent"], i)
+                sym.assume(sum(1 for x in fs_ if x in ch) <= 1)
     controls = [START]
     plan = [{"*": 1}]
     if suspended:
@@ -67,7 +82,9 @@ def h(sym, n, ngo, auxes, symticks, end, parent, suspended, aux_frames=2):
             if prev_ref is not None and prev_ref["m"]["active"] is not None:
                 full = ["f%d" % i for i in flostep.chain(info["parent"], int(prev_ref["m"]["active"][1:]))]
                 susp = [f for f in full if f not in prev_ref["m"]["actives"]]
-            if susp and rs == [e for e in fs if not (e[0] == "m" and e[2] == "exit" and e[1] in susp)]:
+            # plain auxiliaries hosted by a suspended frame are left entered with it (same root cause)
+            susp_aux = [name for (name, kind, host) in info["aux"] if kind == "plain" and ("f%d" % host) in susp]
+            if susp and rs == [e for e in fs if not (e[2] == "exit" and ((e[0] == "m" and e[1] in susp) or e[0] in susp_aux))]:
                 what = {RUN: "transition", STOP: "stop", ABORT: "abort"}.get(control, "other")
                 sym.fail("C06/suspended-frames-not-exited-on-" + what,
                          "tick %d: frames %s stay entered\nreal %s\nspec %s\n%s" % (k, susp, rs, fs, text))
